@@ -72,6 +72,9 @@ pub struct Provenance {
     pub worker: u64,
     pub workers: u64,
     pub sched_index: usize,
+    /// schedules per scenario the worker was running with (prefix replays must match it)
+    #[serde(default)]
+    pub scheds: Option<usize>,
 }
 
 #[derive(Clone, Serialize, Deserialize)]
@@ -219,7 +222,7 @@ fn c18_worker(a: &Args) -> i32 {
         if out.samples.len() < 2 {
             out.samples.push(serde_json::json!({"run_index": i, "run_seed": rs, "scenario": &sc}));
         }
-        let prov = |si: usize| Provenance { verif_seed: seed, salt, run_index: i, run_seed: rs, worker, workers, sched_index: si };
+        let prov = |si: usize| Provenance { verif_seed: seed, salt, run_index: i, run_seed: rs, worker, workers, sched_index: si, scheds: Some(nsched) };
         if !rp.violations.is_empty() {
             let rf = ReplayFile {
                 property: "C18".into(),
@@ -389,7 +392,7 @@ pub fn replay_file(rf: &ReplayFile, a: &Args) -> (Vec<Violation>, Vec<String>) {
                 let rp = c18::reference_phase(&s);
                 // the same number of executions as the worker made, so that whatever counts
                 // parses is in the same state
-                let n = a.u64("prefix-scheds", 4) as usize;
+                let n = a.u64("prefix-scheds", p.scheds.unwrap_or(4) as u64) as usize;
                 let mut est = 64u32;
                 let mut scheds = c18::schedules_for(rs, n, est);
                 for si in 0..n {
@@ -436,6 +439,13 @@ fn dispatch(cmd: &str, a: &Args) -> i32 {
         "replay" => replay(a),
         "minimise" => minimise::run(a),
         "distinct" => distinct(a),
+        // print the scenario of a run index (embedded into replay files that name a run only)
+        "scenario" => {
+            let pool = Pool::load(&a.str("repo", "/repo"));
+            let rs = mix3(a.u64("seed", 1), a.u64("salt", 1), a.u64("run-index", 0));
+            println!("{}", serde_json::to_string(&gen_scenario(rs, &pool)).unwrap());
+            0
+        }
         // is the violation of a replay file realisable on real threads / one thread?
         "confirm" => {
             let path = a.pos.get(1).cloned().unwrap_or_else(|| die("confirm needs a file"));
